@@ -78,9 +78,9 @@ def rand_cfg(rng, namings=NAMINGS, criteria=("size", "age", "both"), modes=("dir
             c["flush_ms"] = rng.choice([1, 5, 50])
     c["crlf"] = rng.random() < 0.3
     if parts:
-        c["basename"] = rng.choice(["app", "", "my.prog", "a_b", "x"])
+        c["basename"] = rng.choice(["app", "", "my.prog", "a_b", "x", "log_reader", "r_r", "app_r00001"])
         if rng.random() < 0.4:
-            c["discr"] = rng.choice(["d1", "foo_bar", "7"])
+            c["discr"] = rng.choice(["d1", "foo_bar", "7", "run7", "r2030-01-01_00-00-00", "rCURRENT"])
         c["suffix"] = rng.choice(["log", "txt", "-", "trc", "log.1"])
         if c["basename"] == "" and "discr" not in c and rng.random() < 0.5:
             c["discr"] = "only"
